@@ -211,7 +211,9 @@ DecodeCands(prop, mc, c, x, sp, info) ==
     IN IF sp.null \/ ~sp.init \/ Len(sp.tsegs) # N \/ Len(sp.pts) # N + 1
        THEN <<Cand(prop, "decode.shape", FALSE, info)>>
        ELSE <<Cand(prop, "decode.durations", \A i \in 1..N : relv(H(sp.tsegs[i]), pr.T[i]), info),
-              Cand(prop, "decode.waypoints", \A j \in 1..(N + 1) : \A col \in 1..mc.D : relv(H(sp.pts[j][col]), pr.P[j][col]), info),
+              \* (a mapped waypoint is assembled from the point's variables: judged relative to the largest of them, not to a result that may cancel)
+              Cand(prop, "decode.waypoints", \A j \in 1..(N + 1) : \A col \in 1..mc.D :
+                       RLe(RAbs(RSub(H(sp.pts[j][col]), pr.P[j][col])), RAdd(RMul(Tol13, RMax(RMaxSeq([c2 \in 1..mc.D |-> RAbs(pr.P[j][c2])]), RInt(j))), RPow("10", -290))), info),
               Cand(prop, "decode.pinned_points", \A j \in 1..(N + 1) : pinnedPt(j - 1) => sp.pts[j] = c.refh.P[j], info),
               Cand(prop, "decode.start_time", sp.start = c.refh.t0, info),
               Cand(prop, "decode.boundary",
